@@ -68,8 +68,8 @@ class ViaSocksPeer(Peer):
                 del self.buf[:r[1]]
                 self.state = 'waiting'
                 host = req['addr'].decode('ascii') if isinstance(req['addr'], bytes) else req['addr']
-                sport = self.conn.transport.getHost().port
-                self.run.socks_request(self, host, req['port'], sport)
+                me = self.conn.transport.getHost()
+                self.run.socks_request(self, host, req['port'], me.port, saddr='[::1]' if ':' in me.host else '127.0.0.1')
 
     def connection_lost(self, clean):
         self.gone = True
@@ -168,9 +168,9 @@ class C09Run(StateRun):
             return self.free_sports.pop(0)
         return drawn
 
-    def socks_request(self, peer, host, port, sport):
+    def socks_request(self, peer, host, port, sport, saddr='127.0.0.1'):
         peer.sport = sport
-        s = StateRun.w_stream_new(self, sport=sport, target=(host, port))
+        s = StateRun.w_stream_new(self, sport=sport, target=(host, port), saddr=saddr)
         s.socks_peer = peer
         peer.stream = s
         for v in self.vias:
@@ -416,6 +416,30 @@ class C09Run(StateRun):
         self.first_setconf_acked_before[len(self.vias)] = acked or not self.vias
         k = len(self.vias)
         host = 'via%d.example' % k
+        again = getattr(self, 'web_again', None)
+        if again is not None and not again['mc'].gone and again['mc'].real is not None:
+            # a second request to the same host through the web agent of the same circuit
+            self.web_again = None
+            mc, host = again['mc'], again['host']
+            rec = dict(k=k, mc=mc, host=host, result=[], streams=[], web=True)
+            self.vias.append(rec)
+            sim.probe('web-agent-second-request-same-host')
+            sim.log('web_agent-again', k, mc.id)
+            d = again['agent'].request(b'GET', ('http://%s/second' % host).encode('ascii'))
+            d.addErrback(lambda f: None)
+            return
+        if ch.chance(1, 6, 'webagent'):
+            # the circuit's web agent instead of stream_via(): the request's SOCKS connection is what gets attached
+            rec = dict(k=k, mc=mc, host=host, result=[], streams=[], web=True)
+            self.vias.append(rec)
+            sim.probe('via-circuit-web-agent')
+            sim.log('web_agent', k, mc.id, mc.state)
+            agent = mc.real.web_agent(sim.reactor, TCP4ClientEndpoint(sim.reactor, '127.0.0.1', 9050))
+            d = agent.request(b'GET', ('http://%s/first' % host).encode('ascii'))
+            d.addErrback(lambda f: None)
+            self.web_again = dict(agent=agent, mc=mc, host=host)
+            self.via_left += 1
+            return
         rec = dict(k=k, mc=mc, host=host, result=[], streams=[])
         self.vias.append(rec)
         sim.probe('via-circuit-connect')
@@ -426,6 +450,11 @@ class C09Run(StateRun):
             # no SOCKS endpoint given: the client endpoint tries Tor's well-known SOCKS ports itself
             sim.probe('via-circuit-guessed-socks-port')
             socks_ep = None
+        elif ch.chance(1, 6, 'v6socks') and sim.gate('via-circuit-ipv6-socks-port'):
+            # Tor's SOCKS port is reached over the IPv6 loopback: Tor reports the stream's source as [::1]:port
+            from twisted.internet.endpoints import TCP6ClientEndpoint
+            sim.probe('via-circuit-ipv6-socks-port')
+            socks_ep = TCP6ClientEndpoint(sim.reactor, '::1', 9050)
         else:
             socks_ep = TCP4ClientEndpoint(sim.reactor, '127.0.0.1', 9050)
         ep = mc.real.stream_via(sim.reactor, host, 80, socks_ep)
@@ -527,6 +556,8 @@ class C09Run(StateRun):
             # Tor never agreed to leave streams unattached, so no connection can be pinned to a circuit: every
             # connect() must fail (also the later ones), none may hang, none may report success
             for v in self.vias:
+                if v.get('web'):
+                    continue
                 if not v['result']:
                     sim.fail('C09.via-connect-pending-after-refusal',
                              'connection %d through circuit %d neither failed nor completed although Tor refused to leave streams unattached' % (
